@@ -177,9 +177,13 @@ def stateless(msg):
     for i, (name, extra) in enumerate(calls):
         iso[(name, extra)] = repr(call(TABLE[name][1], spelling(up, i + 1), *extra)).upper()
     out = []
+    from engine.util import scribble
     for order in (calls, list(reversed(calls))):
         for name, extra in order:
-            r = repr(call(TABLE[name][1], up, *extra)).upper()
+            raw = call(TABLE[name][1], up, *extra)
+            r = repr(raw).upper()
+            if raw[0] == "ok":
+                scribble(raw[1])            # a caller may modify what it was given
             if r != iso[(name, extra)]:
                 out.append(("%s:result_depends_on_earlier_calls" % name, {"kind": "again", "name": name, "extra": list(extra), "msg": msg}))
     seen = set()
@@ -311,6 +315,30 @@ def w_dispatch(_):
     return acc.res()
 
 
+def w_registers(reg):
+    """every in-envelope boundary payload of one Comm-B register (status bits on and off) in DF20 and DF21 carriers
+    through tell(), infer and every commb decoder: the pretty-printer and the decoders see 'not available' fields."""
+    from spec import bds_rules as BR
+    acc = Acc()
+    tab = [t for t in table() if t[0] in ("tell", "bds.infer", "bds.is50or60") or t[0].startswith(("commb.", "bds53."))]
+    mbs = BR.valid(reg)
+    if len(mbs) > 400:
+        mbs = mbs[:: len(mbs) // 400 + 1]
+    for i, mb in enumerate(mbs):
+        for df in (20, 21):
+            msg = F.long_ap(df, 0x0001838 if i % 2 else 0x7FFE0A4, mb, 0x406B90)
+            if i % 3 == 1:
+                msg = msg.lower()
+            for name, f, extras, kind, guard in tab:
+                for extra in extras:
+                    acc.n += 1
+                    s = judge(name, extra, msg)
+                    if s:
+                        acc.bad(s + ":register_payload", {"kind": "call", "name": name, "extra": list(extra), "msg": msg})
+        acc.out.add(("reg", reg, mb))
+    return acc.res()
+
+
 def w_poles(_):
     """position decoders on frames whose decoded latitude is exactly a structural breakpoint (0, +-87, +-90 ...)."""
     acc = Acc()
@@ -338,6 +366,8 @@ def w_poles(_):
 
 
 def w_any(t):
+    if t[0] == "r":
+        return w_registers(t[1])
     if t[0] == "p":
         return w_poles(None)
     if t[0] == "l":
@@ -349,7 +379,7 @@ def run(ctx):
     import random
     rng = random.Random(ctx.seed)
     pays = [0, (1 << 48) - 1, 0x555555555555, 0xAAAAAAAAAAAA, rng.getrandbits(48), rng.getrandbits(48)]
-    tasks = [("d", None), ("p", None)]
+    tasks = [("d", None), ("p", None)] + [("r", r) for r in ("BDS10", "BDS17", "BDS20", "BDS30", "BDS40", "BDS44", "BDS45", "BDS50", "BDS60")]
     for df in range(32):
         tasks.append(("f", (0, [df], pays, ctx.thorough)))
     tasks += [("l", (df, tc)) for df in ((17, 18) if ctx.thorough else (17,)) for tc in range(32)]
@@ -370,6 +400,8 @@ def replay(case):
         return stateless(case["msg"])
     if case["kind"] == "call":
         s = judge(case["name"], tuple(case["extra"]), case["msg"])
+        if s:
+            return [(s, case), (s + ":register_payload", case)]
     else:
         s = judge_dispatch(case["sub"], tuple(case["p"]))
     return [(s, case)] if s else []
